@@ -594,4 +594,66 @@ theorem post_data {s s' : S} {acc d : Bytes} (hp : s'.parked = none) (h : Reach 
     Post s acc (s', .data (acc ++ d)) :=
   ⟨⟨d, h, by intro _; simp [outBytes, pendAcc, hp]⟩, by intro _; exact hp, (by intro h; cases h), accok_of_none hp⟩
 
+/-! ### the flow-control invariant behind `no_stuck_pause` -/
+
+/-- low-water mark positive, and reading is paused only while something is buffered -/
+structure PInv (s : S) : Prop where
+  lowpos : 0 < s.low
+  paused_nonempty : s.paused = true → s.bufs ≠ []
+
+theorem chunksLow_of_empty {s : S} (hi : Inv s) (hb : s.bufs = []) : chunksLow s = true := by
+  have hsz : s.size = 0 := by rw [hi.size_eq, rest_nil hb]; rfl
+  have hct := cursor_add_size hi
+  unfold chunksLow
+  split
+  · rfl
+  · rename_i l hl
+    have h1 := sorted_const_length (c := s.cursor) (hi.sorted l hl)
+      (by intro p hp; have := hi.range l hl p hp; omega)
+    have := hi.lwc
+    simp; omega
+
+theorem paused_maybeResume_of_empty {s : S} (hi : Inv s) (hlow : 0 < s.low) (hb : s.bufs = []) :
+    (maybeResume s).paused = false := by
+  have hsz : s.size = 0 := by rw [hi.size_eq, rest_nil hb]; rfl
+  have hc := chunksLow_of_empty hi hb
+  unfold maybeResume resumeReading
+  have : (decide (s.size < s.low) && chunksLow s) = true := by simp [hc]; omega
+  rw [if_pos this]
+  split <;> rfl
+
+theorem pinv_rnc {s : S} (hi : Inv s) (hp : PInv s) (hne : s.bufs ≠ []) (n : Option Nat) :
+    PInv (rnc s n).1 := by
+  refine ⟨by rw [(quiet_rnc s n).low]; exact hp.lowpos, ?_⟩
+  intro hpz hb
+  cases hbs : s.bufs with
+  | nil => exact hne hbs
+  | cons b t =>
+    have hu := (inv_rncUpd hi hbs n).1
+    have e : (rnc s n).1 = maybeResume (rncUpd s (rncSel b t s.off n).1 (rncSel b t s.off n).2.1 (rncSel b t s.off n).2.2) := by
+      unfold rnc; simp [hbs]
+    rw [e] at hpz hb
+    rw [bufs_maybeResume] at hb
+    have := paused_maybeResume_of_empty hu (by exact hp.lowpos) hb
+    rw [this] at hpz
+    cases hpz
+
+theorem pinv_move {s s' : S} {d : Bytes} (hi : Inv s) (hp : PInv s) (m : Move s s' d) : PInv s' := by
+  cases m with
+  | rnc n h => exact pinv_rnc hi hp h n
+  | setChunk n =>
+    unfold setChunk
+    split
+    · rename_i h; exact ⟨by show 0 < n; omega, hp.paused_nonempty⟩
+    · exact hp
+  | park p hw hb => exact ⟨hp.lowpos, hp.paused_nonempty⟩
+  | lose b => exact ⟨hp.lowpos, hp.paused_nonempty⟩
+  | setSplits l l' h hs => exact ⟨hp.lowpos, hp.paused_nonempty⟩
+  | unpark hw => exact ⟨hp.lowpos, hp.paused_nonempty⟩
+
+theorem pinv_reach {s s' : S} {d : Bytes} (hi : Inv s) (hp : PInv s) (r : Reach s s' d) : PInv s' := by
+  induction r with
+  | refl => exact hp
+  | step m _ ih => exact ih (move_inv hi m) (pinv_move hi hp m)
+
 end Aio.C08
